@@ -252,27 +252,33 @@ ADDENDA = {
     'C04': ' Further structural rules: every path of format() returns a string; validate() must not rewrite the compact form once more before '
            'checking it (format() starts from compact(x)); an attribute looked up on a dispatched sub-module must exist in every candidate.',
     'C05': ' With a fixed length gate, no slice the generator takes of the whole number may reach into the compared position; a checksum '
-           'comparison guarded by `part of the number not in <constant list>` is an exemption list and is reported.',
+           'comparison guarded by `part of the number not in <constant list>` is an exemption list and is reported; a check position compared with '
+           'several generators, or tested for membership in a generated string that is not built from single-character pieces, is reported.',
     'C06': ' Generators are evaluated with checksum() standing for each state and may read the payload only through checksum(); the Damm step '
            'is evaluated per (state, digit) whatever its form; the Luhn sum is read symbolically (generator sums, accumulation loops, helpers); '
-           'checksum() must consume the number character by character (no int() of the whole argument).',
+           'checksum() must consume the number character by character (no int() of the whole argument); gates and further conjuncts of '
+           'validate() must let every string of a payload plus check characters through.',
     'C07': ' The IBAN envelope relies on util.get_cc_module loading the named submodule (from-list or dotted path), which is checked.',
     'C08': ' A conversion that is a pure projection of its source has to validate the source first.',
     'C09': ' util.get_cc_module must import the named submodule (from-list or dotted path): otherwise the dispatch silently returns None.',
     'C10': ' Guards on the emptiness of an accumulator fork the abstract execution; temporaries of one iteration are atoms with the order type '
-           'they had when assigned; what get() hands to read() and read() to _parse() must be the opened file itself (DT.source).',
+           'they had when assigned; what get() hands to read() and read() to _parse() must be the opened file itself (DT.source); the property '
+           'name class must contain [0-9a-zA-Z-_].',
     'C11': ' A constant table against which a consumer tests a prefix of the number (reject / strict subscript / gate of the lookup) must contain '
-           'every top-level prefix of the registry it reads; characters at which the line reader splits a line are reported.',
+           'every top-level prefix of the registry it reads; characters at which the line reader splits a line and range endpoints outside '
+           'printable ASCII are reported; the format gates of isil.validate() are evaluated on a witness for every registered agency.',
     'C12': ' A lookup of a field in a constant (length, low, high) table by string comparison must cut the field to the width of the bounds; '
            'getter thresholds must be thresholds of validate().',
-    'C13': ' Module-level defaultdicts that functions subscript (inserting lookups), function-level caches and one-shot module iterators are reported.',
+    'C13': ' Module-level defaultdicts that functions subscript (inserting lookups), function-level caches, one-shot module iterators and clock '
+           'reads in default arguments are reported.',
     'C14': ' clean() is interpreted over a small stream domain (helpers followed, generator expressions and joins composed): the result must be '
            'conversion inside the catch-all, one pass through table.get(x, x), deletion last; the table builder may be any one-expression '
            'function that evaluates to the name-list map; module-level digit tables of other modules are checked against the Unicode decimal values; '
-           'a regular expression applied to the raw argument before clean() is a read of the raw text.',
+           'a regular expression applied to the raw argument before clean() is a read of the raw text; no module other than stdnum.util may '
+           'refer to the table.',
     'C16': ' _max_length() must equal the sum of the component widths of the format; an encoder branch that drops trailing 00 fields may only '
            'serve formats with an optional part; the fixed/variable choice in encode() may depend on the fnc1 flag only; the separator is '
-           'never used as a character set (strip family).',
+           'never used as a character set (strip family); compact() deletes only the parentheses and clean() leaves the 82 GS1 value characters alone.',
     'C17': ' Paths of validate() that return without any check are limited to two documented modules.',
     'C18': ' Availability: the C01 obligations and the result kind / attribute totality of every format() the page calls are re-decided; '
            'util.get_number_modules() must yield every module that has validate().',
